@@ -131,12 +131,13 @@ func propTable() map[string]PropSpec {
 			{Harness: "HarnessC15DurWrite", ArgSets: hours, Solver: "cvc5", TimeoutMs: 600000, Reach: []string{"C15.dur.write.end"}, Workers: 1},
 			{Harness: "HarnessC15DateParse", ArgSets: parse, Solver: "cvc5", TimeoutMs: 600000, Reach: []string{"C15.date.parse.end"}, Workers: 1},
 			{Harness: "HarnessC15DateWrite", ArgSets: write, Solver: "cvc5", TimeoutMs: 600000, Reach: []string{"C15.date.write.end"}},
+			{Harness: "HarnessC15Through", ArgSets: [][]int64{{0}, {1}, {2}, {3}}, Reach: []string{"C15.through.end"}},
 		}
 	}
 	t["C15"] = PropSpec{
 		ID: "C15", Quick: c15(false), Thorough: c15(true),
 		Bounds: map[string]string{
-			"quick":    "BCD: all 2^8 bytes, all 2^16/2^24 raw duration patterns; duration writers: hh:mm writer for hours in {0,9,10,23,99} x all minutes, seconds and sub-second fractions (2^30); hh:mm:ss writer for (hour,minute) in {(0,0),(9,59),(10,30),(23,59),(99,59)} x all seconds and fractions; date decode: 4 MJD chunks of 256 values containing 1900-03-01, 2000-02-29, 2038-04-22 and 1970-01-01 x all BCD times of day; date encode: years 1900-1904, 1999-2001, 2036-2038, every day, 3 times of day; all 2^40 raw patterns for panic-freedom",
+			"quick":    "BCD: all 2^8 bytes, all 2^16/2^24 raw duration patterns; duration writers: hh:mm writer for hours in {0,9,10,23,99} x all minutes, seconds and sub-second fractions (2^30); hh:mm:ss writer for (hour,minute) in {(0,0),(9,59),(10,30),(23,59),(99,59)} x all seconds and fractions; date decode: 4 MJD chunks of 256 values containing 1900-03-01, 2000-02-29, 2038-04-22 and 1970-01-01 x all BCD times of day; date encode: years 1900-1904, 1999-2001, 2036-2038, every day, 3 times of day; all 2^40 raw patterns for panic-freedom; pass-through: EIT start_time/duration, TOT UTC_time and the local time offset descriptor (input: every 40/24/16-bit pattern; output: every date and offset) hand their fields to these kernels unchanged",
 			"thorough": "duration writers: all hours 0..99; date decode: all MJD 15079..65535 (25 chunks); date encode: all years 1900..2038",
 		},
 		Outside:     "non-UTC locations; normalisation inside time.Date (std); dates before 1900-03-01 (outside the property)",
@@ -214,17 +215,22 @@ func propTable() map[string]PropSpec {
 			in = append(in, [][]int64{{0, 6}, {0, 7}, {0, 12}, {0, 16}, {0, 17}, {0, 32}, {0, 64}, {2, 14}, {2, 18}, {70, 12}, {65, 13}, {111, 15}, {78, 27}, {115, 14}}...)
 		}
 		enc := [][]int64{{0, 0, 0}, {0, 1, 0}, {0, 4, 0}, {1, 0, 0}, {1, 1, 0}, {1, 3, 0}}
+		var kinds [][]int64
+		for i := int64(0); i < 25; i++ {
+			kinds = append(kinds, []int64{i, level})
+		}
 		return []TaskSpec{
 			{Harness: "HarnessC09HasCRC", Reach: []string{"C09.hascrc.end"}},
 			{Harness: "HarnessC09In", ArgSets: in, TimeoutMs: 20000, Reach: []string{"C09.in.accepted", "C09.in.rejected"}},
 			{Harness: "HarnessC13Encode", ArgSets: enc, Reach: []string{"C13.encode.end"}, Asserts: []string{"C09."}},
 			{Harness: "HarnessC14LangLen", ArgSets: cross(ints(2, 8, 12, 17, 19, 20), ints(0, 2, 3, 4)), Reach: []string{"C14.langlen.end"}, Asserts: []string{"C09."}},
+			{Harness: "HarnessC09Desc", ArgSets: kinds, Reach: []string{"C09.desc.end"}},
 		}
 	}
 	t["C09"] = PropSpec{
 		ID: "C09", Quick: c09(0), Thorough: c09(1),
 		Bounds: map[string]string{
-			"quick":    "input: every byte string of 3+L bytes offered as a section of table id T, for (T,L) in PAT{5,8,9,13,24}, PMT{13}, SDT{12,17}, EIT{15}, TOT{11}, TDT{8}, CAT-id{8}; declared section_length 0..L (every value); all bytes symbolic => every corruption of every section of that size; hasCRC32/hasPSISyntaxHeader for all 2^8 table ids. output: PAT 0/1/4 programs, PMT 0/1/3 streams (section_length and CRC_32 of the bytes written)",
+			"quick":    "input: every byte string of 3+L bytes offered as a section of table id T, for (T,L) in PAT{5,8,9,13,24}, PMT{13}, SDT{12,17}, EIT{15}, TOT{11}, TDT{8}, CAT-id{8}; declared section_length 0..L (every value); all bytes symbolic => every corruption of every section of that size; hasCRC32/hasPSISyntaxHeader for all 2^8 table ids. output: PAT 0/1/4 programs, PMT 0/1/3 streams (section_length and CRC_32 of the bytes written); a PMT carrying one descriptor of each of the 25 modelled kinds in every shape the model draws (optional parts, 0..2 items, variable fields of 0..2 bytes; code fields of 0/2/3/4 bytes): ES_info_length, section_length, CRC_32 position and value equal the bytes written",
 			"thorough": "more lengths per table (PAT up to 64 bytes) and table-id variants",
 		},
 		Outside:     "sections longer than listed on the input side (the CRC check is one length-generic loop); NIT sections with arbitrary bytes (two nested symbolic loop lengths: >10^5 paths at the minimal size; the CRC code path is the same as for the other table ids); Muxer-level emission is asserted in the Muxer harnesses",
@@ -440,7 +446,7 @@ func propTable() map[string]PropSpec {
 	t["C19"] = PropSpec{ID: "C19",
 		Quick: []TaskSpec{
 			{Harness: "HarnessC19Skip", ArgSets: [][]int64{{0}, {1}}, Reach: []string{"C19.skip.end"}},
-			{Harness: "HarnessC19Parser", ArgSets: [][]int64{{0}, {1}, {2}}, Reach: []string{"C19.parser.end"}},
+			{Harness: "HarnessC19Parser", ArgSets: [][]int64{{0, 0}, {1, 0}, {2, 0}, {0, 0x1fff}, {1, 0x1fff}, {0, 1}, {1, 1}, {0, 0x1ffe}}, Reach: []string{"C19.parser.end"}},
 			{Harness: "HarnessC19SkipRewind", ArgSets: [][]int64{{0}, {1}}, Reach: []string{"C19.rewind.end"}},
 		},
 		Bounds:  map[string]string{"quick": "5-packet stream (PAT, PMT, 2 PES units, one with AF stuffing): all 2^5 per-packet skipper decisions for NextPacket and NextData against the pre-filtered stream, callback arguments checked against an independent parse; packets parser as observer, replacer and failing parser"},
